@@ -64,7 +64,7 @@ TBase == /\ Is("Base") /\ t.ph \in {"written", "resolved2", "vulns2"}
          /\ Ev.k \in 1..Len(t.patches)
          /\ \E u \in t.patches[Ev.k].ups : u.name = Ev.name
          /\ t' = [t EXCEPT !.bases = @ \cup {[k |-> Ev.k, name |-> Ev.name, base |-> Ev.base, after |-> Ev.after,
-                                              toKind |-> Ev.toKind, toAt |-> Ev.toAt]}]
+                                              toKind |-> Ev.toKind, toAt |-> Ev.toAt, hard |-> Ev.hard]}]
 TError == /\ Is("Error") /\ t.ph \in {"parsed", "resolved1"}
           /\ t' = [t EXCEPT !.ph = "error"]
 \* a trace ends only when C11 has been evaluated for every update of every proposed/applied patch
@@ -81,6 +81,11 @@ TSpec == TInit /\ [][TNext]_tvars
 DevPreCaretT(b) == /\ "C11-relax-prerelease-caret" \in Devs /\ t.scn.strategy = "relax"
                    /\ b.base # <<>> /\ b.base[4] # Rel /\ b.toKind = "caret"
                    /\ b.toAt = <<b.base[1], b.base[2], b.base[3], Rel>>
+\* Maven: a hard range beats the soft version the tool wrote (override patch that fixes nothing; bulk update of a
+\* package some hard range constrains)
+DevUnfixingT(b) == "C11-override-unfixing-patch" \in Devs /\ t.scn.strategy = "override" /\ t.patches[b.k].fixed = {}
+DevUpdateHardT(b) == "C11-update-maven-hard-range" \in Devs /\ t.scn.mode = "update" /\ b.hard
+DevHardT(b) == DevUnfixingT(b) \/ DevUpdateHardT(b)
 DevExplicitT(p) == /\ "C12-explicit-introduced" \in Devs /\ t.scn.explicit # <<>>
                    /\ ~(p.intro \subseteq ToSet(t.scn.explicit))
 
@@ -88,11 +93,11 @@ DevExplicitT(p) == /\ "C12-explicit-introduced" \in Devs /\ t.scn.explicit # <<>
 \* no patch, proposed or applied, touches a package configured as not upgradable
 TC11None == \A k \in 1..Len(t.patches) : \A u \in t.patches[k].ups : LevelT(u.name) # "none"
 \* every change moves the package strictly upward from where it would resolve without the change ...
-TC11Upward == \A b \in t.bases : (b.base # <<>> /\ b.after # <<>>) => Cmp(b.after, b.base) > 0
+TC11Upward == \A b \in t.bases : (b.base # <<>> /\ b.after # <<>>) => (Cmp(b.after, b.base) > 0 \/ DevHardT(b))
 \* ... by no more than the level configured for it
-TC11Level == \A b \in t.bases : (b.base # <<>> /\ b.after # <<>>) => (Allows(LevelT(b.name), Diff(b.base, b.after)) \/ DevPreCaretT(b))
+TC11Level == \A b \in t.bases : (b.base # <<>> /\ b.after # <<>>) => (Allows(LevelT(b.name), Diff(b.base, b.after)) \/ DevPreCaretT(b) \/ DevHardT(b))
 \* (the three together are ChangeOK of Remediation)
-TC11ChangeOK == \A b \in t.bases : (b.base # <<>> /\ b.after # <<>> /\ ~DevPreCaretT(b)) => ChangeOK(LevelT(b.name), b.base, b.after)
+TC11ChangeOK == \A b \in t.bases : (b.base # <<>> /\ b.after # <<>> /\ ~DevPreCaretT(b) /\ ~DevHardT(b)) => ChangeOK(LevelT(b.name), b.base, b.after)
 
 (* ---- C12 at every step ---- *)
 Applied(k) == t.patches[t.chosen[k]]
